@@ -4,6 +4,7 @@ Spec functions over the tagged union U are written from the property statement a
 documented operator table (true != 1, 1 == 1.0, empty == ""/[]/{} only, blank also for
 whitespace strings, ordering only str x str and number x number, booleans never order)."""
 import ast
+import itertools
 
 import z3
 
@@ -316,4 +317,194 @@ def run(m):
     r = brun("quick", 0)
     v = r["violations"]
     return {"failing": bool(v), "witness": v[0]["witness"] if v else "operator-table", "call": v[0]["source"] if v else "operator/tree sweep", "result": v[0]["got"] if v else "ok"}
+'''
+
+
+# ---- case/when: a `when` that matched -- whatever its body wrote -- keeps every later `else` from rendering ----
+CASE_M = "liquid.builtin.tags.case_tag"
+
+
+def _case_render(kinds, sfx):
+    @contract(CASE_M + ":CaseNode.render_to_output" + sfx, prop="C12", name=f"CaseNode.render_to_output{sfx}[blocks={','.join(kinds) or 'none'}]")
+    def cn(c):
+        env = mk_env(c)
+        ctx = mk_ctx(c, env)
+        blocks, res = [], []
+        for i, k in enumerate(kinds):
+            if k == "when":
+                blocks.append(c.obj(CASE_M + ":MultiExpressionBlockNode", f"when{i}", token=NONE, blank=c.bool(f"blank{i}")))
+            else:
+                blocks.append(c.obj("liquid.ast:BlockNode", f"else{i}", token=NONE, blank=c.bool(f"blank{i}")))
+            # what MultiExpressionBlockNode.render returns: -1 when no `when` value equals the subject, else the
+            # number of characters its body wrote (0 for a body of assigns, an empty body, an empty string ...)
+            res.append(c.int(f"result{i}").t)
+            c.requires(res[i] >= (-1 if k == "when" else 0), f"block {i} returns -1 (no match, when only) or a character count")
+        addr = {b.addr: i for i, b in enumerate(blocks)}
+        self = c.obj(CASE_M + ":CaseNode", "case", token=NONE, expression=c.obj("liquid.expression:Expression", "subject", token=NONE), blocks=c.st.alloc(HList(items=blocks)), blank=c.bool("blank"))
+
+        def rb(eng, st, a, k):
+            i = addr[a[0].addr]
+            st.log.append(("rendered", i))
+            return [(st, VInt(res[i]))]
+        c.summary("liquid.ast:BlockNode.render" + sfx, rb)
+        c.summary("liquid.ast:Node.render" + sfx, rb)
+        c.call(ctx, c.obj("io:StringIO", "buffer", __text__=c.str("out")), self_val=self)
+
+        def post(r):
+            done = [e[1] for e in r.st.log if e[0] == "rendered"]
+            conds = []
+            for i, k in enumerate(kinds):
+                if k == "when":
+                    conds.append(z3.BoolVal(done.count(i) == 1))      # every when is tried, once, in order
+                else:
+                    no_match = z3.And(*[res[j] == -1 for j in range(i) if kinds[j] == "when"])
+                    conds.append(z3.If(no_match, z3.BoolVal(done.count(i) == 1), z3.BoolVal(done.count(i) == 0)))
+            return z3.And(z3.BoolVal(done == sorted(done)), *conds)
+        c.ensures("else-renders-iff-no-earlier-when-matched(a-match-that-writes-nothing-is-a-match)", post)
+        c.ensures("returns-the-characters-written", lambda r: r.value.t == sum([z3.If(z3.BoolVal(i in [e[1] for e in r.st.log if e[0] == "rendered"]), z3.If(res[i] >= 0, res[i], 0), 0) for i in range(len(kinds))] + [z3.IntVal(0)]))
+        c.cover("a-when-matched-and-wrote-nothing", lambda r: z3.Or(*[res[i] == 0 for i, k in enumerate(kinds) if k == "when"])) if "when" in kinds else None
+        c.replay("code", code=REPLAY_CASE_EMPTY)
+
+
+for _n in range(0, 4):
+    for _kinds in itertools.product(("when", "else"), repeat=_n):
+        for _sfx in ("", "_async"):
+            _case_render(_kinds, _sfx)
+
+REPLAY_CASE_EMPTY = r'''
+def run(m):
+    import asyncio
+    from liquid import Environment
+    bad = []
+    for body in ("{% assign a = 'x' %}", "", "{{ '' }}", "W"):
+        for src, want in (("{% case 1 %}{% when 1 %}" + body + "{% else %}E{% endcase %}", body if body == "W" else ""),
+                          ("{% case 1 %}{% when 2 %}" + body + "{% else %}E{% endcase %}", "E"),
+                          ("{% case 1 %}{% else %}D{% when 1 %}" + body + "{% else %}E{% endcase %}", "D" + (body if body == "W" else ""))):
+            t = Environment().from_string(src)
+            for got in (t.render(), asyncio.run(t.render_async())):
+                if got != want:
+                    bad.append((src, got, want))
+    return {"failing": bool(bad), "violated": bool(bad), "witness": "case-else-rendered-after-a-matching-when", "call": repr(bad[:2]), "result": bad[0][1] if bad else "ok", "expected": bad[0][2] if bad else ""}
+'''
+
+
+def _when_render(n, sfx):
+    @contract(CASE_M + ":MultiExpressionBlockNode.render_to_output" + sfx, prop="C12", name=f"MultiExpressionBlockNode.render_to_output{sfx}[{n} when values]")
+    def wn(c):
+        env = mk_env(c)
+        ctx = mk_ctx(c, env)
+        ms = [c.bool(f"match{i}") for i in range(n)]
+        wrote = c.int("body_wrote").t
+        c.requires(wrote >= 0, "the body returns a character count")
+        block = c.obj("liquid.ast:BlockNode", "body", token=NONE, blank=c.bool("bblank"))
+        expr = c.obj(CASE_M + ":_AnyExpression", "any", token=NONE)
+        self = c.obj(CASE_M + ":MultiExpressionBlockNode", "when", token=NONE, block=block, expression=expr, blank=c.bool("blank"))
+
+        def ev(eng, st, a, k):
+            return [(st, st.alloc(HList(items=list(ms))))]
+
+        def rb(eng, st, a, k):
+            st.log.append(("body",))
+            return [(st, VInt(wrote))]
+        c.summary(CASE_M + ":_AnyExpression.evaluate" + sfx, ev)
+        c.summary("liquid.ast:BlockNode.render" + sfx, rb)
+        c.call(ctx, c.obj("io:StringIO", "buffer", __text__=c.str("out")), self_val=self)
+        anym = z3.Or(*[m.t for m in ms])
+        c.ensures("minus-one-iff-no-value-matched", lambda r: (r.value.t == -1) == z3.Not(anym))
+        c.ensures("a-match-returns-a-count-not-below-zero", lambda r: z3.Implies(anym, r.value.t >= 0))
+        c.ensures("the-body-renders-once-per-matching-value", lambda r: z3.IntVal(len([e for e in r.st.log if e == ("body",)])) == sum([z3.If(m.t, 1, 0) for m in ms]))
+        c.cover("matched-and-wrote-nothing", lambda r: z3.And(anym, wrote == 0))
+        c.replay("code", code=REPLAY_CASE_EMPTY)
+
+
+for _n in (1, 2, 3):
+    for _sfx in ("", "_async"):
+        _when_render(_n, _sfx)
+
+
+# ---- if / unless / elsif / ternary conditions are BooleanExpressions, whose evaluate is is_truthy of the operand ----
+def _bool_expr(sfx):
+    @contract(LOGICAL + ":BooleanExpression.evaluate" + sfx, prop="C12", name=f"BooleanExpression.evaluate{sfx}")
+    def be(c):
+        env = mk_env(c)
+        ctx = mk_ctx(c, env)
+        v = c.any("operand_value")
+        c.requires(z3.Not(has_liquid(v.t)), "not a drop")
+        inner = c.obj("liquid.expression:Expression", "operand", token=NONE)
+        self = c.obj(LOGICAL + ":BooleanExpression", "condition", token=NONE, expression=inner)
+        c.summary("liquid.expression:Expression.evaluate" + sfx, lambda eng, st, a, k: [(st, v)])
+        c.call(ctx, self_val=self)
+        falsy = z3.Or(U.is_none(v.t), z3.And(U.is_bool(v.t), z3.Not(U.b(v.t))), isinst("Undefined", v.t))
+        c.ensures("a-condition-is-true-unless-its-value-is-false-nil-or-undefined", lambda r: (r.value.t == z3.Not(falsy)) if isinstance(r.value, VBool) else z3.BoolVal(False))
+        c.raises()
+        c.cover("zero-and-empty-values-are-true", lambda r: z3.Or(z3.And(U.is_int(v.t), U.i(v.t) == 0), z3.And(U.is_str(v.t), z3.Length(U.s(v.t)) == 0)))
+        c.replay("code", code=REPLAY_COND)
+
+
+for _sfx in ("", "_async"):
+    _bool_expr(_sfx)
+
+_COND_SITES = (("liquid.builtin.tags.if_tag", "IfTag", "parse", (("node_class", "condition", 1), ("ConditionalBlockNode", "expression", 1))),
+               ("liquid.builtin.tags.unless_tag", "UnlessTag", "parse", (("node_class", "condition", 1), ("ConditionalBlockNode", "expression", 1))),
+               ("liquid.builtin.expressions.filtered", "TernaryFilteredExpression", "parse", (("TernaryFilteredExpression", "condition", 2),)))
+
+
+@structural("C12", "conditions-are-boolean-expressions")
+def conditions_are_boolean_expressions():
+    """The truthiness rule lives in BooleanExpression.evaluate (contract above); the nodes test
+    `condition.evaluate(context)` directly.  So every condition handed to an if/unless node, an elsif
+    block or a ternary expression must be the result of BooleanExpression.parse."""
+    obs = []
+    for mname, cname, fname, ctors in _COND_SITES:
+        fn = load.get_module(mname).classes[cname].methods[fname] if hasattr(load.get_module(mname).classes[cname], "methods") else None
+        if fn is None:
+            fn = next(n for n in load.get_module(mname).classes[cname].body if isinstance(n, (ast.FunctionDef, ast.AsyncFunctionDef)) and n.name == fname)
+        assigned = {}
+        for n in ast.walk(fn):
+            if isinstance(n, (ast.Assign, ast.AnnAssign)) and n.value is not None:
+                for t in (n.targets if isinstance(n, ast.Assign) else [n.target]):
+                    if isinstance(t, ast.Name):
+                        assigned.setdefault(t.id, []).append(n.value)
+        def from_boolean_parse(node):
+            if isinstance(node, ast.Call):
+                return flow.dotted(node.func) == "BooleanExpression.parse"
+            if isinstance(node, ast.Name):
+                vals = assigned.get(node.id, [])
+                return bool(vals) and all(from_boolean_parse(v) for v in vals)
+            return False
+        for ctor, kw, pos in ctors:
+            sites = [c_ for c_ in flow.calls(fn) if flow.call_name(c_) == ctor]
+            args = []
+            for c_ in sites:
+                a = next((k.value for k in c_.keywords if k.arg == kw), None)
+                if a is None and len(c_.args) > pos:
+                    a = c_.args[pos]
+                args.append(a)
+            ok = bool(sites) and all(a is not None and from_boolean_parse(a) for a in args)
+            obs.append(flow.ob(f"{cname}.{fname}:{ctor}({kw}=...)-is-a-BooleanExpression", ok, "; ".join(ast.unparse(a) if a is not None else "<missing>" for a in args)[:200] or "no constructor call found",
+                               replay_schema="code", replay_extra={"code": REPLAY_COND}))
+    return obs
+
+
+REPLAY_COND = r'''
+def run(m):
+    import asyncio, decimal
+    from liquid import Environment
+    class Env(Environment):
+        ternary_expressions = True
+    env = Env()
+    bad = []
+    vals = {"zero": 0, "fzero": 0.0, "dzero": decimal.Decimal(0), "estr": "", "elist": [], "edict": {}, "erange": range(0), "one": 1, "f": False, "n": None}
+    for name, v in vals.items():
+        want = "F" if name in ("f", "n") else "T"
+        for src in ("{{ 'T' if x else 'F' }}", "{% if x %}T{% else %}F{% endif %}", "{% unless x %}F{% else %}T{% endunless %}", "{% if f %}{% elsif x %}T{% else %}F{% endif %}"):
+            t = env.from_string(src)
+            for got in (t.render(x=v, f=False), asyncio.run(t.render_async(x=v, f=False))):
+                if got != want:
+                    bad.append((src, name, got, want))
+    for src in ("{{ 'T' if nosuch else 'F' }}", "{% if nosuch %}T{% else %}F{% endif %}"):
+        got = env.from_string(src).render()
+        if got != "F":
+            bad.append((src, "undefined", got, "F"))
+    return {"failing": bool(bad), "violated": bool(bad), "witness": "condition-not-judged-by-liquid-truthiness", "call": repr(bad[:3]), "result": bad[0][2] if bad else "ok", "expected": bad[0][3] if bad else ""}
 '''
